@@ -195,11 +195,11 @@ def varSem : Sem Var where
     | .unknown => []
   item := varItem
 
-def mapSem : Sem SMap where
-  init := []
-  step m o := some (specOp m o)
-  values m := m.vals
-  item := mapItem
+def mapSem : Sem SVar where
+  init := SVar.unset
+  step x o := some (specOp x o)
+  values x := x.m.vals
+  item x := mapItem x.m
 
 structure PState (σ : Type) where
   a : σ
